@@ -1,4 +1,5 @@
 //! Runs one input through the real decoders (inside a child process) and applies the oracle.
+use crate::events;
 use crate::geninp::{Input, Kind};
 use crate::oracle::{self, Fail};
 use serde_json::{Value, json};
@@ -138,7 +139,9 @@ pub fn run_matcher_input(inp: &Input) -> Outcome {
             Kind::Event => match drive(TTYEventDecoder::new(), &chunks, use_into) {
                 Ok(events) => {
                     if pi == 0 {
-                        judge_events(&mut o, inp, &events);
+                        if let Some(answer) = judge_events(&mut o, inp, &events) {
+                            model_lines(&mut o, inp, "ev", answer);
+                        }
                     }
                     events.iter().map(|e| format!("{e:?}")).collect()
                 }
@@ -150,7 +153,9 @@ pub fn run_matcher_input(inp: &Input) -> Outcome {
             _ => match drive(TTYCommandDecoder::new(), &chunks, use_into) {
                 Ok(cmds) => {
                     if pi == 0 {
-                        judge_commands(&mut o, inp, &cmds);
+                        if let Some(answer) = judge_commands(&mut o, inp, &cmds) {
+                            model_lines(&mut o, inp, "cmd", answer);
+                        }
                     }
                     cmds.iter().map(|e| format!("{e:?}")).collect()
                 }
@@ -177,6 +182,17 @@ pub fn run_matcher_input(inp: &Input) -> Outcome {
     o
 }
 
+/// correspondence with the Lean model of the whole decoder (tokenizer over the dumped production automaton,
+/// then the payload decoders), on the whole stream and on the last (random) partition
+fn model_lines(o: &mut Outcome, inp: &Input, op: &str, answer: String) {
+    o.corr.push((format!("c02 {op} {}", chunks_str(&inp.stream, &inp.parts[0])), answer.clone()));
+    if let Some(last) = inp.parts.last() {
+        if inp.parts.len() > 2 {
+            o.corr.push((format!("c02 {op} {}", chunks_str(&inp.stream, last)), answer));
+        }
+    }
+}
+
 fn segments<'a>(o: &mut Outcome, inp: &'a Input, n_items: usize) -> Option<Vec<&'a [u8]>> {
     let ends = match boundaries(inp.kind, &inp.stream) {
         Ok(e) => e,
@@ -199,7 +215,8 @@ fn segments<'a>(o: &mut Outcome, inp: &'a Input, n_items: usize) -> Option<Vec<&
     Some(segs)
 }
 
-fn judge_events(o: &mut Outcome, inp: &Input, events: &[TerminalEvent]) {
+fn judge_events(o: &mut Outcome, inp: &Input, events: &[TerminalEvent]) -> Option<String> {
+    let mut answer = None;
     // raw bytes in order: property level check, independent of the token boundaries
     let mut raw_all = Vec::new();
     for e in events {
@@ -220,13 +237,40 @@ fn judge_events(o: &mut Outcome, inp: &Input, events: &[TerminalEvent]) {
             o.hist.push(format!("event:{fam}"));
             push_fails(&mut o.fails, inp, None, fs);
         }
+        // rendering for the correspondence with the Lean model of the whole decoder; an OSC colour report whose
+        // colour text goes to the part of rasterize that is not modelled is `ext` on both sides
+        let shown: Vec<String> = segs
+            .iter()
+            .zip(events)
+            .map(|(seg, ev)| if is_osc_token(seg) && events::osc_external(seg) { "ext".to_string() } else { events::show_event(ev) })
+            .collect();
+        let used: usize = segs.iter().map(|s| s.len()).sum();
+        answer = Some(format!("{} rest={}", if shown.is_empty() { "-".to_string() } else { shown.join(" ") }, hex(&inp.stream[used..])));
     }
     if o.sample.is_none() && !events.is_empty() {
         o.sample = Some(json!({"decoder": "event", "stream": hex(&inp.stream), "events": events.iter().map(|e| format!("{e:?}")).collect::<Vec<_>>()}));
     }
+    answer
 }
 
-fn judge_commands(o: &mut Outcome, inp: &Input, cmds: &[TerminalCommand]) {
+/// `ESC ] digits ; [^ESC BEL]+ (BEL | ESC \)`: a complete OSC reply
+fn is_osc_token(seg: &[u8]) -> bool {
+    if seg.len() < 6 || seg[0] != 0x1b || seg[1] != b']' {
+        return false;
+    }
+    let body = if seg[seg.len() - 1] == 7 {
+        &seg[2..seg.len() - 1]
+    } else if seg.ends_with(b"\x1b\\") {
+        &seg[2..seg.len() - 2]
+    } else {
+        return false;
+    };
+    let nd = body.iter().take_while(|b| b.is_ascii_digit()).count();
+    nd >= 1 && body.get(nd) == Some(&b';') && body.len() > nd + 1 && body[nd + 1..].iter().all(|b| *b != 0x1b && *b != 7)
+}
+
+fn judge_commands(o: &mut Outcome, inp: &Input, cmds: &[TerminalCommand]) -> Option<String> {
+    let mut answer = None;
     let mut raw_all = Vec::new();
     for c in cmds {
         if let TerminalCommand::Raw(b) = c {
@@ -246,10 +290,14 @@ fn judge_commands(o: &mut Outcome, inp: &Input, cmds: &[TerminalCommand]) {
             o.hist.push(format!("command:{fam}"));
             push_fails(&mut o.fails, inp, None, fs);
         }
+        let shown: Vec<String> = cmds.iter().map(events::show_command).collect();
+        let used: usize = segs.iter().map(|s| s.len()).sum();
+        answer = Some(format!("{} rest={}", if shown.is_empty() { "-".to_string() } else { shown.join(" ") }, hex(&inp.stream[used..])));
     }
     if o.sample.is_none() && !cmds.is_empty() {
         o.sample = Some(json!({"decoder": "command", "stream": hex(&inp.stream), "items": cmds.iter().map(|e| format!("{e:?}")).collect::<Vec<_>>()}));
     }
+    answer
 }
 
 // ---------------------------------------------------------------- Utf8Decoder
